@@ -99,7 +99,8 @@ fn real_eps() -> Vec<Ep> {
                     file = TAILS[k % 8].as_bytes().to_vec();
                 }
                 let content = if k % 9 == 8 {
-                    if !v[0].is_ascii() || v[0].chars().any(|c| c.is_control()) || v[0].is_empty() {
+                    // a header value of a body part: no optional whitespace around it (HTTP field syntax)
+                    if !v[0].is_ascii() || v[0].chars().any(|c| c.is_control()) || v[0].is_empty() || v[0].trim() != v[0] {
                         return None;
                     }
                     FileOrLocation::Location(v[0].clone())
